@@ -334,3 +334,24 @@ def _load_cropped_and_aligned_image(
     file_signature: tuple[int, int] | None = None,
 ) -> np.ndarray:''')
 print("applied", sorted(only) if only else "all")
+
+# F17 (C16) SAR converters accumulate the code in float64 (out of range above 53 bits)
+for mod in ("sar_adc", "sar_adc_with_noise"):
+    sub("F17", f"pyxel/models/readout_electronics/{mod}.py",
+        "    data_digitized_2d = np.zeros((num_rows, num_cols))\n",
+        "    # Use integers to avoid rounding errors for resolutions above 53 bits\n"
+        "    data_digitized_2d = np.zeros((num_rows, num_cols), dtype=np.uint64)\n")
+sub("F17", "pyxel/models/readout_electronics/sar_adc.py",
+    "        data_digitized_2d[signal_normalized_2d >= ref] += digital_value\n",
+    "        data_digitized_2d[signal_normalized_2d >= ref] += np.uint64(digital_value)\n")
+sub("F17", "pyxel/models/readout_electronics/sar_adc_with_noise.py",
+    "        data_digitized_2d += digital_value * mask_2d\n",
+    "        data_digitized_2d += np.uint64(digital_value) * mask_2d.astype(np.uint64)\n")
+
+# F18 (C20) text tables parsed with pandas' fast (not round-trip) float parser
+sub("F18", "pyxel/inputs/loader.py", '''                        header=0 if header else None,
+                        dtype=dtype,
+                    )''', '''                        header=0 if header else None,
+                        dtype=dtype,
+                        float_precision="round_trip",
+                    )''', count=2)
